@@ -423,10 +423,15 @@ func c19Clone(pos *c19Pos, obj reflect.Value) reflect.Value {
 		}
 		return clonePtr(obj)
 	}
+	// a view with spare capacity that holds old values (a truncated or reused buffer of the caller): what lies behind
+	// len is not part of the operand, so a routine that grows an operand in place must not read it
 	n := obj.Len()
-	c := reflect.MakeSlice(obj.Type(), n, n)
+	c := reflect.MakeSlice(obj.Type(), n+6, n+6)
 	reflect.Copy(c, obj)
-	return c
+	for i := n; i < n+6 && n > 0; i++ {
+		c.Index(i).Set(obj.Index(i % n))
+	}
+	return c.Slice(0, n)
 }
 
 func c19Enc(v reflect.Value) any {
